@@ -210,20 +210,26 @@ func c05BulkIndex(c *Ctx) {
 	// hyper tree: versions[i] ↔ digests[i]
 	okHy := false
 	var whyHy string
+	// every version rendered for the hyper tree inside the loop (appended or stored by index) is
+	// initialVersion + i
+	nV := 0
 	eachInstr(hyAB, func(in ssa.Instruction) {
-		cc := callCommon(in)
-		if cc == nil {
+		call, isCall := in.(*ssa.Call)
+		if !isCall || !inCycle(in.Block()) {
 			return
 		}
-		if b, ok := cc.Value.(*ssa.Builtin); !ok || b.Name() != "append" {
+		t := p.TermOf(call)
+		if !utilCallTerm(t, "Uint64AsBytes") {
 			return
 		}
-		t := p.TermOf(cc.Args[1])
-		if t.Op == "list" && len(t.Args) == 1 && utilCallTerm(t.Args[0], "Uint64AsBytes") {
-			v := t.Args[0].Args[0]
-			whyHy = v.String()
-			// initialVersion + uint64(i) with i the index of the digest appended in the same iteration
-			okHy = v.Op == "binop" && v.Name == "+" && v.Args[0].IsParam(hyAB, 2) && isLoopIndex(v.Args[1])
+		nV++
+		v := t.Args[0]
+		whyHy = v.String()
+		ok := v.Op == "binop" && v.Name == "+" && v.Args[0].IsParam(hyAB, 2) && isLoopIndex(v.Args[1])
+		if nV == 1 {
+			okHy = ok
+		} else {
+			okHy = okHy && ok
 		}
 	})
 	c.Check(okHy, "R3", funcName(hyAB)+":versions", hyAB.Pos(), "version of element i = initialVersion+i", "hyper bulk versions are built from "+whyHy)
